@@ -149,7 +149,7 @@ def drop_family(rng, tier, prefix="d"):
     out = []
     subsets = [s for k in range(9) for s in itertools.combinations(range(8), k)]      # all 256
     if tier == "quick":
-        pick = [subsets[0]] + rng.sample(subsets[1:], 70)
+        pick = [subsets[0]] + rng.sample(subsets[1:], 127)
         for i, s in enumerate(pick):
             out.append(drop_scenario(rng, "%s%d" % (prefix, i), s, reverse=(i % 3 == 2)))
     else:
@@ -255,11 +255,11 @@ def both_scenario(rng, sid):
 
 COUNTS = {
     #              quick  thorough
-    "tcp":        (500,  9000),
-    "tcp_heavy":  (250,  5000),
-    "smallread":  (350,  6000),
-    "reuse":      (500,  8000),
-    "both":       (250,  4000),
+    "tcp":        (1200, 9000),
+    "tcp_heavy":  (600,  5000),
+    "smallread":  (800,  6000),
+    "reuse":      (1200, 8000),
+    "both":       (600,  4000),
 }
 
 
